@@ -520,6 +520,19 @@ pub fn family_shape(_tier: Tier) -> Vec<PProblem> {
             }
         }
     }
+    // fast service: positions of multi-task jobs are cached per tour
+    for n_single in [2usize, 3] {
+        for fleet in [1usize, 2] {
+            let mut jobs = vec![
+                job("pd1", vec![task(Pickup, vec![place(2, 1., &[], Some("p"))], &[1]), task(Delivery, vec![place(4, 1., &[], Some("d"))], &[1])]),
+                job("pd2", vec![task(Pickup, vec![place(3, 1., &[], Some("p"))], &[1]), task(Delivery, vec![place(1, 1., &[], Some("d"))], &[1])]),
+            ];
+            jobs.extend((0..n_single).map(|i| job(&format!("s{i}"), vec![task(Delivery, vec![place(1 + i, 1., &[], None)], &[1])])));
+            let mut p = base(format!("shape/fast-service/n{n_single}/f{fleet}"), jobs, vec![vehicle_type("v", fleet, &[4], vec![shift(ShiftKind::Closed)])]);
+            p.objectives = Some(json!([{"type": "minimize-unassigned"}, {"type": "minimize-tours"}, {"type": "fast-service"}, {"type": "minimize-cost"}]));
+            out.push(p);
+        }
+    }
     for obj in ["balance-max-load", "balance-activities", "balance-distance", "balance-duration"] {
         let jobs: Vec<PJob> = (0..5).map(|i| job(&format!("j{i}"), vec![task(Delivery, vec![place(1 + i % 4, 1., &[], None)], &[1])])).collect();
         let mut p = base(format!("shape/{obj}"), jobs, vec![vehicle_type("v", 2, &[4], vec![shift(ShiftKind::Closed)])]);
